@@ -338,8 +338,9 @@ theorem all_flatten_mem {β : Type} {P : β → Prop} (f : Nat → List β) (n :
 well-formed records is read back by the 12-state chunk parser of `/repo` (model of C02, `FastqChunkParser(shift, true)`)
 followed by `ParseFastSeqJsonHeader` as exactly the records of all batches in batch order, the qualities being those
 the writer prints (40 everywhere when the record has none) clamped at 93.  `hq`: the qualities, when present, are as
-long as the sequence (what `BioSequence` guarantees for a record read from a FASTQ file). -/
-theorem fastq_file_reads_back {α : Type} [DecidableEq α] (J : Header.JsonLib α) (sh : UInt8) (hsh : sh = 33 ∨ sh = 64)
+long as the sequence (what `BioSequence` guarantees for a record read from a FASTQ file); `hsh`: no printed quality byte
+is an end of line (`Header.ShiftOK`, true of the offsets 33 and 64 — `Header.shiftOK_33_64` — and of every offset 14..172). -/
+theorem fastq_file_reads_back {α : Type} [DecidableEq α] (J : Header.JsonLib α) (sh : UInt8) (hsh : Header.ShiftOK sh)
     (se : Bool) (recs : Nat → List (Header.Record α))
     (hJ : ∀ k, ∀ x ∈ recs k, J.OKat (x.ann, x.defn)) (hWF : ∀ k, ∀ x ∈ recs k, Header.WF x)
     (hq : ∀ k, ∀ x ∈ recs k, (Header.qualities x.seq x.qual).length = x.seq.length)
@@ -568,7 +569,7 @@ theorem paired_fasta_files_in_step {α : Type} [DecidableEq α] (J : Header.Json
 
 /-- **Paired FASTQ files stay in step** (same statement through the 12-state FASTQ parser; qualities as printed). -/
 theorem paired_fastq_files_in_step {α : Type} [DecidableEq α] (J : Header.JsonLib α) (sh : UInt8)
-    (hsh : sh = 33 ∨ sh = 64) (se : Bool)
+    (hsh : Header.ShiftOK sh) (se : Bool)
     (pairs : Nat → List (Header.Record α × Header.Record α))
     (hJ : ∀ k, ∀ p ∈ pairs k, J.OKat (p.1.ann, p.1.defn) ∧ J.OKat (p.2.ann, p.2.defn))
     (hWF : ∀ k, ∀ p ∈ pairs k, Header.WF p.1 ∧ Header.WF p.2)
